@@ -55,6 +55,11 @@ def gen_stmts(rng, tname, ncols, nrows):
         'SELECT date, account, position',
         'SELECT account, sum(position) AS s GROUP BY account',
         'SELECT date, narration FROM #transactions',
+        f'SELECT NULL AS nothing, {c1} FROM #{tname}',
+        'SELECT NULL AS n1, NULL AS n2, account LIMIT 2',
+        'SELECT account, sum(position) AS s, first(date) AS d, count(number) AS n GROUP BY account',
+        'SELECT position, weight, tags, number, cost_date LIMIT 3',
+        'SELECT account, open.date AS od FROM #accounts',
         f'SELECT a FROM #{tname} LIMIT 1',
         f'SELECT a + 1 AS a1, {c1} FROM #{tname} LIMIT {lim}',
     ]
@@ -454,7 +459,7 @@ def execute(case, keep_log=False):
                     obs = observe_desc(d_, typecodes, viols)
                     if d_ is not None and len(retained_desc) < 40:
                         for e_ in d_:
-                            retained_desc.append((ci, oi, e_, (e_[0], len(e_))))
+                            retained_desc.append((ci, oi, e_, (e_[0], len(e_), e_[1])))
                 elif k == 'arraysize':
                     cur.arraysize = op['n']
                     obs = None
@@ -505,11 +510,13 @@ def execute(case, keep_log=False):
         # description entries handed out earlier keep describing the column they described
         for (ci, oi, e_, snap) in retained_desc:
             try:
-                now = (e_[0], len(e_))
+                now = (e_[0], len(e_), e_[1])
             except Exception as ex:
                 now = core.exc_class(ex)
             if now != snap:
-                violation('description-entry-changed-later', ci, oi, case['clients'][ci]['ops'][oi], list(snap), now)
+                # type codes are per-process values: report which field moved, never the code itself
+                what = 'raised' if not isinstance(now, tuple) else ('name/len' if now[:2] != snap[:2] else 'type_code')
+                violation('description-entry-changed-later', ci, oi, case['clients'][ci]['ops'][oi], list(snap[:2]), what)
                 break
         # rows handed out by earlier fetch calls stay what they were, whatever the cursor did afterwards
         for (ci, oi, lst, snap) in retained:
